@@ -46,7 +46,7 @@ EXCS = [ValueError, TypeError, KeyError, AttributeError, RuntimeError, Assertion
         Custom, UnicodeError, ZeroDivisionError, LookupError, OSError]
 EXC_BY_NAME = {e.__name__: e for e in EXCS}
 
-STATE = {'i': -1, 'plan': {}}
+STATE = {'i': -1, 'plan': {}, 'fired': 0}
 
 
 def hook(v):
@@ -55,6 +55,7 @@ def hook(v):
     f = STATE['plan'].get(STATE['i'])
     if f is None:
         return None
+    STATE['fired'] += 1
     if f[0] == 'raise':
         raise EXC_BY_NAME[f[1]]('boom')
     if f[0] == 'stub':
@@ -177,6 +178,7 @@ def run_once(spec, plan):
     v = build(spec)
     STATE['i'] = -1
     STATE['plan'] = plan
+    STATE['fired'] = 0
     with warnings.catch_warnings(record=True) as ws:
         warnings.simplefilter('always')
         try:
@@ -185,7 +187,7 @@ def run_once(spec, plan):
             out = ('exc', type(e).__name__)
     STATE['plan'] = {}
     msgs = [str(w.message) for w in ws]
-    return out, msgs, STATE['i'] + 1
+    return out, msgs, STATE['i'] + 1, STATE['fired']
 
 
 def bad_printer_warnings(msgs):
@@ -195,8 +197,8 @@ def bad_printer_warnings(msgs):
 def check_fault(spec, faults, base, part):
     """faults: dict index -> exception name.  Compare with the stub run."""
     case = {'tree': spec_json(spec), 'faults': {str(k): v for k, v in faults.items()}}
-    stub, smsgs, _ = run_once(spec, {i: ('stub',) for i in faults})
-    got, gmsgs, _ = run_once(spec, {i: ('raise', e) for i, e in faults.items()})
+    stub, smsgs, _, sfired = run_once(spec, {i: ('stub',) for i in faults})
+    got, gmsgs, _, fired = run_once(spec, {i: ('raise', e) for i, e in faults.items()})
     part.n += 2
     if got[0] != 'ok':
         part.violation('fault-escaped-pformat', case, {'raised': got[1], 'stub_output': stub[1]})
@@ -204,11 +206,12 @@ def check_fault(spec, faults, base, part):
         part.violation('fault-not-contained-at-its-value', case, {'output': got[1], 'expected_stub_output': stub[1]})
     else:
         nbad = bad_printer_warnings(gmsgs)
-        if len(nbad) != len(faults):
-            part.violation('wrong-number-of-warnings', case, {'warnings': [m[:120] for m in gmsgs], 'expected': len(faults)})
+        # a planned fault whose invocation never happens (its parent already failed) cannot warn
+        if len(nbad) != fired or fired != sfired:
+            part.violation('wrong-number-of-warnings', case, {'warnings': [m[:120] for m in gmsgs], 'faults_fired': fired, 'fired_in_stub_run': sfired})
         elif not all(any(n in m for n in PRINTER_NAMES.values()) and 'UserWarning' != '' for m in nbad):
             part.violation('warning-does-not-name-the-printer', case, [m[:160] for m in nbad])
-    after, amsgs, _ = run_once(spec, {})
+    after, amsgs, _, _f = run_once(spec, {})
     part.n += 1
     if after != base[0] or bad_printer_warnings(amsgs):
         part.violation('later-call-affected', case, {'after': after, 'baseline': base[0]})
@@ -217,7 +220,7 @@ def check_fault(spec, faults, base, part):
 
 def check_int(spec, i, part):
     case = {'tree': spec_json(spec), 'non_doc_return_at': i}
-    got, msgs, _ = run_once(spec, {i: ('int',)})
+    got, msgs, _, _f = run_once(spec, {i: ('int',)})
     part.n += 1
     if got == ('exc', 'ValueError'):
         return
